@@ -55,20 +55,22 @@ theorem C01_node_labels (t0 t : Val) (hwf : treeOk t = true) :
     | scalar r => simpa [List.filterMap_cons, Entry.posStart, positionedOfEntries] using ih
 
 /-- **C01 (node labels, on the real pipeline).** For a tree `t` as exported from `ast.parse`, whose
-on-the-fly form satisfies the local clauses of the six post-processing passes (`wfStages6`) and whose
-tweaked form `stage6` is well formed for the `node` feature (`treeOk`) — both Bool-valued and evaluated on
+on-the-fly form satisfies the local clauses of the six post-processing passes (`wfStages6`) and the
+shape / repr-kind agreement clauses (`wfTweak`), and whose tweaked form `tweak [] …` — the one-shot
+specification — is well formed for the `node` feature (`treeOk`) — both Bool-valued and evaluated on
 every real tree —, searching the `node` pattern in **what `flatten_ast` returns** and keeping the positioned
 types gives, in pre-order, exactly one occurrence per node of the tweaked tree that carries a line number,
 with its type and its own line. -/
 theorem C01_node_labels_pipeline (cfg : Cfg) (s : HashState) (t : Val) (ty : Str) (e : Bool) (r : Str)
     (ln : Option Nat) (fs : List (Str × Val)) (ht : prep cfg t = .node ty e r ln fs)
-    (hwf : wfStages6 (prep cfg t) = true) (hok : treeOk (stage6 (prep cfg t)) = true) :
+    (hwf : wfStages6 (prep cfg t) = true) (hwt : wfTweak (prep cfg t) = true)
+    (hok : treeOk (tweak [] (prep cfg t)) = true) :
     ((nodeStarts (flattenAst cfg s t).1).filter
-        (fun x => (posTypes (stage6 (prep cfg t))).contains x.1)).map
+        (fun x => (posTypes (tweak [] (prep cfg t))).contains x.1)).map
         (fun x => (x.1, (parsePos? x.2).map (·.1))) =
-      (positionedNodes (stage6 (prep cfg t))).map (fun x => (x.1, some x.2)) := by
-  rw [Paroxy.Props.C15.C15_flatten_tweaked cfg s t ty e r ln fs ht hwf]
-  exact C01_node_labels (prep cfg t) (stage6 (prep cfg t)) hok
+      (positionedNodes (tweak [] (prep cfg t))).map (fun x => (x.1, some x.2)) := by
+  rw [Paroxy.Props.C15.C15_flatten_tweaked cfg s t ty e r ln fs ht hwf hwt]
+  exact C01_node_labels (prep cfg t) (tweak [] (prep cfg t)) hok
 
 /-- Non-vacuity with a string constant containing `_pos=` (the former finding F17, `s = '_pos=3:1-:2'`, as
 exported): the hypotheses of `C01_node_labels_pipeline` hold, the value is dumped escaped. -/
@@ -83,11 +85,11 @@ def samplePosString : Val :=
          (cs!"type_comment", .scalar cs!"None" .nameConst)]]),
      (cs!"type_ignores", .list false [])]
 
-example : wfStages6 (prep implCfg samplePosString) = true ∧
-    treeOk (stage6 (prep implCfg samplePosString)) = true := by decide
-example : positionedNodes (stage6 (prep implCfg samplePosString)) =
+example : wfStages6 (prep implCfg samplePosString) = true ∧ wfTweak (prep implCfg samplePosString) = true ∧
+    treeOk (tweak [] (prep implCfg samplePosString)) = true := by decide
+example : positionedNodes (tweak [] (prep implCfg samplePosString)) =
     [(cs!"Assign", 1), (cs!"Name", 1), (cs!"Str", 1)] := by decide
-example : cs!"/body/1/assignvalue/s=_pos\\=3:1-:2" ∈ dumpP id [] [] (stage6 (prep implCfg samplePosString)) := by
+example : cs!"/body/1/assignvalue/s=_pos\\=3:1-:2" ∈ dumpP id [] [] (tweak [] (prep implCfg samplePosString)) := by
   decide
 
 /-- Non-vacuity: a small module `x = 1` (already tweaked) is well formed, and the theorem's right-hand
